@@ -30,11 +30,30 @@ Theorem C09_generated_keys_roundtrip_to_same_structs : forall H, HashLaws H -> f
     sk_into_bytes P sk = Ok skb /\ sk_try_from_bytes P skb = Ok sk.
 Proof. intros H HL P HP xi pk sk E. exact (generated_roundtrip H HL P HP xi pk sk E). Qed.
 
+(* "behaves identically", stated on the operations: whatever serialising a generated private key and
+   deserialising the bytes returns is the generated struct, so signing (both modes, every generator state and loop budget,
+   message and context) and public-key derivation return the same result - value, error and generator
+   state - with the round-tripped key as with the original. *)
+Theorem C09_roundtripped_key_behaves_identically : forall H, HashLaws H -> forall P, In P all_params -> forall xi pk sk,
+  keygen_from_seed H P xi = Ok (pk, sk) ->
+  forall skb sk', sk_into_bytes P sk = Ok skb -> sk_try_from_bytes P skb = Ok sk' ->
+  sk' = sk /\
+  (forall fuel g m ctx, try_sign_with_rng H fuel P sk' g m ctx = try_sign_with_rng H fuel P sk g m ctx) /\
+  (forall fuel g m ctx ph, try_hash_sign_with_rng H fuel P sk' g m ctx ph = try_hash_sign_with_rng H fuel P sk g m ctx ph) /\
+  get_public_key H P sk' = get_public_key H P sk.
+Proof.
+  intros H HL P HP xi pk sk E skb sk' Eb Es.
+  destruct (generated_roundtrip H HL P HP xi pk sk E) as (pkb & skb0 & _ & _ & _ & _ & _ & _ & Eb0 & Es0).
+  assert (Hb : skb0 = skb) by congruence. subst skb0.
+  assert (S : sk' = sk) by congruence. subst sk'. repeat split.
+Qed.
+
 (* t1 = 1023 is the largest value whose shift by d stays below q: t1 * 2^d <= q - 1 *)
 Theorem C09_t1_shift_in_range : T1MAX = 1023 /\ T1MAX * 2 ^ D = Q - 1.
 Proof. split; reflexivity. Qed.
 
 Print Assumptions C09_public_key_bytes_roundtrip.
+Print Assumptions C09_roundtripped_key_behaves_identically.
 Print Assumptions C09_private_key_bytes_roundtrip.
 Print Assumptions C09_generated_keys_roundtrip_to_same_structs.
 Print Assumptions C09_t1_shift_in_range.
